@@ -252,10 +252,11 @@ claim("C04", "Lean 4 theorems (Mathlib change of variables) about definitions re
       "scalar transformer family that is lawful on R, log-det antisymmetric and satisfies the one-dimensional layer fact, preserves mass for every integrand and has sampler law exp(log_prob), in both orientations, at every condition, "
       "given only joint measurability of (point, coordinate) -> transformer(parameter row of the point)(coordinate); that hypothesis is discharged for the generated Affine transformer in the constructor's parameterisation over every "
       "perceptron / masked network with a CONTINUOUS activation, relu included (coupling_relu_layer, maf_continuous_layer: a network with a continuous activation is continuous, any depth and shapes); every well-formed rational-quadratic "
-      "spline satisfies the three scalar hypotheses (spline_family_facts); any depth and mixture with the other layers is normalised with sampler law exp(log_prob) (flowNd_layerOK_stack_normalised/_sample_law; relu_flow_instance).",
+      "spline satisfies the three scalar hypotheses (spline_family_facts), and the joint measurability is PROVED for the spline family the premade flows use (Flows.rqsFamily over the generated "
+      "_real_to_increasing_on_interval and RationalQuadraticSpline methods: spline_joint_measurable, coupling_spline_meas, maf_spline_meas), so the default SPLINE coupling / MAF layers over relu networks satisfy both layer facts in both "
+      "orientations with only shape hypotheses left (coupling_spline_layer, maf_spline_layer, spline_flow_instance); any depth and mixture with the other layers is normalised with sampler law exp(log_prob) (flowNd_layerOK_stack_normalised/_sample_law; relu_flow_instance).",
       _TB + " PARTIAL: PRNG statistics (that the base sampler draws from the base density) and rounding are outside; BNAF's sampling direction uses the numerical inverter and Planar(tanh) implements no inverse, so for those 'samples follow "
-      "the density' is proved for the exact inverse (C10 bounds the inverter's error); for the rational-quadratic-spline transformer inside Coupling/MAF in d > 1 the joint measurability of (parameter row, point) -> spline value is left as a hypothesis "
-      "(NetMass.CouplingMeas / MafMeas; every other hypothesis is proved); excluded parameter point w = 0 of Planar (the code returns NaN there). The correspondence is C03's plus the network "
+      "the density' is proved for the exact inverse (C10 bounds the inverter's error); triangular_spline_flow has no dedicated d-dimensional theorem (its layers are covered one by one); excluded parameter point w = 0 of Planar (the code returns NaN there). The correspondence is C03's plus the network "
       "models' (netinv, bnafld), Planar's and the permutation layers', all re-run by C04's check.", "DESIGN.md §5 C04")
 
 claim("C06", "Lean 4 theorems about a hand-written executable model of the batching layer, proved equal to the public wrappers REGENERATED from the source on every run "
